@@ -14,6 +14,31 @@ CLAIMED = {
     note="Trusted: env.rs stand-in types, R-lock (bodies verified as critical sections), assumed contract of deep_clone_value (structurally equal copy), clone_unrooted as identity. lazy.rs and resume/yield/spawn are outside both tools.",
     technique="Verus contracts on mechanically extracted function bodies + inductive history lemmas",
     design="2/C17"),
+ "C01": dict(
+    text="Proof of the leaf operations the reference semantics bottoms out in: Verus (unbounded) on the real Stack/StackFrame primitives against a Seq<Value> view, Instruction::adjust against the documented stack-effect table, ProgramCounter index safety; Kani (full domain) on the 18 arithmetic/comparison interpreter arms (expression text parsed from execute_ every run) against Z / IEEE, and on the operator-name -> opcode table. Partial: translate/compile/call protocol are not under contract.",
+    note="Trusted: env.rs stand-ins and rewrite rules listed in evidence; MultiplyInt/DivideInt references are core's checked_mul and the language's `/`; binop_* error mapping, Translator, Compiler::compile_, do_call, rename, implicits are unverified.",
+    technique="Verus contracts on extracted bodies + generated Kani harnesses over the interpreter arm table",
+    design="2/C01"),
+ "C06": dict(
+    text="Proof (Kani, full argument domains; &str arguments bounded to <= 2 chars and labelled bounded) that every scalar primitive registered in load_int/load_byte/load_char/load_float/load_string - the registered expression text itself, parsed from the tables every run - neither panics nor traps nor exhibits UB on any well-typed argument; plus a Verus contract that frame exit never pops a locked frame. Found and repaired three classes of host-aborting primitives (see known_findings.txt).",
+    note="Trusted: debug-profile semantics; alloc::fmt::format stubbed; pow's overflow trap asserted through checked_pow because Kani does not model it; 43 table entries (libm floats, string searchers, unicode tables, Thread-dependent) are skipped and listed in evidence; array/userdata/IO primitives, unpack_and_call and call_thunk_top are unverified.",
+    technique="generated Kani harnesses (one per primitive!() table entry) + Verus contract on exit_scope",
+    design="2/C06"),
+ "C07": dict(
+    text="Proof of the three limit computations: Kani (symbolic counters, full usize domain) on the real Gc::alloc_owned (accounted memory never exceeds the limit; failure leaves the heap untouched) and check_collect; Verus on the real add_new_frame (frame entered iff len + max_stack_size <= limit) and on the per-instruction step of static stack accounting (adjust/emit/increase_stack/emit_call). Found and repaired the header-not-counted defect.",
+    note="Trusted: get_type_info stubbed; allocated_memory <= isize::MAX; no u32 wrap in len+max_stack_size; operand_fits. TailCall frame reuse, interrupt polling, native-stack depth and the induction over compile_ are not under contract.",
+    technique="Kani harnesses on the real allocator + Verus contracts on extracted bodies",
+    design="2/C07"),
+ "C08": dict(
+    text="Thin partial proof: built-in operator fixity table (real OpTable::get, concrete enumeration) and the span algebra (Span::new/to/between/until/with_*/subspan/from_offset, Location::shift; full u32 domain) that parser actions and 'spans delimit the text' are built from.",
+    note="The shift/reduce resolver (reparse), layout algorithm, tokenizer and grammar are NOT under contract (reparse probed intractable for CBMC and outside Verus's dialect); OpTable::get only with an empty user table.",
+    technique="Kani harnesses (complete: loop-free or concrete) on real code",
+    design="2/C08"),
+ "C20": dict(
+    text="Proof (Kani, full u32 domain) that span containment is total and trichotomous and that is_macro_expanded is exact; bounded (1-4 siblings, complete per N) check that FindVisitor::select_spanned never panics and selects the first containing sibling / the right neighbour.",
+    note="Sibling selection is bounded in the number of siblings and labelled so; AST traversal, suggestion scoping, type agreement, signature_help and metadata queries are not under contract.",
+    technique="Kani harnesses on real code (complete for containment, bounded for sibling selection)",
+    design="2/C20"),
 }
 
 NA = {
